@@ -291,6 +291,14 @@ pub fn unlock(rng: &mut StdRng, n: usize, full: bool, out: &mut Vec<Value>) {
       names.extend([p.saturating_sub(1), p, p.saturating_add(1), p / 2, p / 3 * 2]);
     }
     names.extend([Rune::RESERVED - 1, Rune::RESERVED]);
+    // names exactly at, just below and just above the minimum of heights all over the schedule (long names, mid-interval)
+    let mut hb = start;
+    while hb < start + 210_000 {
+      let off = rng.gen_range(0..1500u32);
+      let m = Rune::minimum_at_height(net, Height(hb + off)).0;
+      names.extend([m, m.saturating_sub(1), m.saturating_add(1)]);
+      hb += if full { 211 } else { 1733 };
+    }
     for v in names {
       let r = Rune(v);
       match r.unlock_height(net) {
